@@ -196,6 +196,12 @@ class Program:
                 self.modules[modname] = m
         if len(self.modules) < 30:
             raise AnalysisError(f"only {len(self.modules)} modules under {self.root}; expected the whole package")
+        # "extract method" refactorings: private helpers the reference tree does not know are inlined into their callers
+        from .inline import inline_new_helpers
+        try:
+            self.inlined = inline_new_helpers({n: m.tree for n, m in self.modules.items()})
+        except RecursionError:
+            self.inlined = {"<inliner>": "gave up (recursion)"}
         for m in self.modules.values():
             self._index_module(m)
 
